@@ -198,6 +198,29 @@ func genC13(seed uint64, i int, tier string) *Scenario {
 			Clients: []Client{{Stmts: []Stmt{{Text: text, Mode: genMode(r)}}}},
 		}
 	}
+	if (i/(2*len(c13Templates)))%5 == 3 {
+		// single-edit corruptions of valid statements: mostly rejected at parse/plan
+		// time (must touch nothing); the accepted ones are just more statements
+		style := pick(r, []string{StoreMixed, StoreInts, StoreText})
+		g := newGen(r, style)
+		var text string
+		switch r.Intn(6) {
+		case 0:
+			text = g.PutText()
+		case 1:
+			text = g.RemoveText()
+		case 2:
+			text = g.DeleteStmt().Render(false)
+		default:
+			text = g.Select(r.Bool()).Render(false)
+		}
+		return &Scenario{
+			Family:  "corrupted",
+			Cfg:     Config{Batch: pickBatch(r), Cache: r.Bool()},
+			Init:    genStore(r, pick(r, []int{0, 3, 8}), style),
+			Clients: []Client{{Stmts: []Stmt{{Text: corruptText(r, text), Mode: genMode(r)}}}},
+		}
+	}
 	t := c13Templates[i%len(c13Templates)]
 	size := pick(r, []int{0, 1, 3, 6, 12, 20, 35, 50})
 	if tier == "thorough" && r.Chance(0.2) {
@@ -394,4 +417,38 @@ func shrinkC13(sc *Scenario) []*Scenario {
 	out = append(out, shrinkInit(sc)...)
 	out = append(out, shrinkConfig(sc)...)
 	return out
+}
+
+// corruptText applies one edit to a statement text.
+func corruptText(r *Rng, t string) string {
+	toks := strings.Fields(t)
+	if len(toks) < 2 {
+		return t + " ("
+	}
+	i := r.Intn(len(toks))
+	switch r.Intn(8) {
+	case 0: // drop a token
+		toks = append(toks[:i], toks[i+1:]...)
+	case 1: // duplicate a token
+		toks = append(toks[:i+1], toks[i:]...)
+	case 2: // swap neighbours
+		if i+1 < len(toks) {
+			toks[i], toks[i+1] = toks[i+1], toks[i]
+		}
+	case 3: // truncate
+		toks = toks[:i+1]
+	case 4: // misspell a keyword
+		toks[i] = toks[i] + "x"
+	case 5: // type confusion: a number where text is expected and vice versa
+		if strings.HasPrefix(toks[i], "'") {
+			toks[i] = "7"
+		} else {
+			toks[i] = "'q'"
+		}
+	case 6: // unbalanced parenthesis
+		toks[i] = strings.Replace(toks[i], "(", "", 1)
+	default: // stray operator
+		toks = append(toks[:i+1], append([]string{pick(r, []string{"&", "+", "=", ",", "limit", "as"})}, toks[i+1:]...)...)
+	}
+	return strings.Join(toks, " ")
 }
